@@ -10,6 +10,7 @@ the call in flight.  All theorems quantify over ALL histories, configurations an
 Sequential semantics: one call in flight.
 -/
 import SV.Lemmas.Snap
+import SV.Lemmas.SnapConc
 
 namespace SV.Props.C08
 open SV.Snap
@@ -451,6 +452,142 @@ are ever remote — in every state a crash can expose. -/
 theorem remote_snapshots_are_committed (cfg0 : Config) (s : State) (h : CleanReachable cfg0 s) :
     ∀ a ∈ s.snaps, isRemote a.labels = true → a.kind = .committed :=
   (cinv_reachable h).remoteCommitted
+
+
+/-! ### concurrent callers: the interleaved semantics (`SV/Model/SnapConc.lean`)
+
+`CReach {} cfg c`: `c` is reachable by ANY interleaving of the atomic steps of any number of
+concurrent Prepare / View / Commit / Update / Remove / Cleanup calls, where only bolt's single writer
+(a lock held from createSnapshot's `TransactionContext(ctx, true)` to its commit, and by every other
+write transaction) restricts the schedule.  Assumption built into the semantics: no Remove(k) /
+Commit(_, k) runs concurrently with a Prepare/View that is creating the same key k. -/
+
+open SV.Snap.Conc
+
+/-- a backend mount implies its directory, in every state of every interleaving -/
+theorem mount_implies_dir_concurrent (cfg : Config) (c : CState) (h : CReach {} cfg c) :
+    ∀ n ∈ c.s.mounts, Dir.id n ∈ c.s.dirs :=
+  (cinvar_reachable h).inv.mountDir
+
+/-- the directory of a live snapshot is never removed: in every state of every interleaving every
+snapshot in the metadata has its directory (this is what the seeded change C08-A breaks) -/
+theorem live_snapshot_dirs_never_removed_concurrent (cfg : Config) (c : CState) (h : CReach {} cfg c) :
+    ∀ a ∈ c.s.snaps, Dir.id a.id ∈ c.s.dirs :=
+  (cinvar_reachable h).allDirs
+
+/-- whatever a cleanup loop in flight is still going to unmount / delete is owned by no live snapshot
+(so in particular no directory of a live snapshot with a live mount is ever unmounted) -/
+theorem unmount_only_after_removed_concurrent (cfg : Config) (c : CState) (h : CReach {} cfg c)
+    (i : Nat) (ds : List Dir) (u : Bool) (hpc : c.th i = .clean ds u) :
+    ∀ d ∈ ds, ∀ n, d = Dir.id n → ∀ a ∈ c.s.snaps, a.id ≠ n := by
+  have := (cinvar_reachable h).tok i
+  rw [hpc] at this
+  intro d hd n hn
+  have hdead := this.1 d hd
+  rw [hn] at hdead
+  exact hdead.2
+
+/-- when a thread is about to `RemoveAll` a directory (it has called Unmount on it), the directory
+carries no backend mount — whatever the other threads did in between -/
+theorem unmount_before_rmdir_concurrent (cfg : Config) (c : CState) (h : CReach {} cfg c)
+    (i : Nat) (d : Dir) (r : List Dir) (hpc : c.th i = .clean (d :: r) true) :
+    ∀ n, d = Dir.id n → n ∉ c.s.mounts := by
+  have := (cinvar_reachable h).tok i
+  rw [hpc] at this
+  exact this.2 rfl d r rfl
+
+/-- the metadata invariant itself (distinct keys and ids, committed parents, …) and the writer
+lock discipline hold in every interleaving -/
+theorem invariant_concurrent (cfg : Config) (c : CState) (h : CReach {} cfg c) : CInvar c :=
+  cinvar_reachable h
+
+/-- at a quiescent state of a concurrent run (whatever happened before), one Cleanup leaves exactly
+the directories of the live snapshots -/
+theorem cleanup_exact_concurrent (cfg : Config) (c : CState) (h : CReach {} cfg c) (orc : Oracle) (order : List Dir) :
+    (runOp c.s orc (.cleanup order)).2 = .ok ∧
+    ∀ d, d ∈ (runOp c.s orc (.cleanup order)).1.dirs ↔ ∃ a ∈ (runOp c.s orc (.cleanup order)).1.snaps, d = Dir.id a.id :=
+  cleanup_exact_of_allDirs c.s (closed_reachable h) (cinvar_reachable h).allDirs orc order
+
+/-- The Prepare-with-target outcome under concurrency: when the internal commit of a Prepare that has
+mounted its snapshot fires — after ANY interleaving with other calls — the target becomes a committed
+snapshot with the caller's labels plus the remote label, it carries a live backend mount (exactly
+one: the mount table has no duplicates) and its directory exists. -/
+theorem prepare_target_commit_concurrent (cfg : Config) (c : CState) (h : CReach {} cfg c)
+    (i : Nat) (T : String) (sn : Snap) (hpc : c.th i = .prepCommit T sn) (hok : commitOk c.s T sn.key) :
+    ∃ t, findKey (applyStep c.s (.txCommitActive sn.key T (lset sn.labels remoteLabel remoteVal))).snaps T = some t ∧
+      t.kind = .committed ∧ t.id = sn.id ∧ t.labels = lset sn.labels remoteLabel remoteVal ∧ isRemote t.labels = true ∧
+      t.id ∈ (applyStep c.s (.txCommitActive sn.key T (lset sn.labels remoteLabel remoteVal))).mounts ∧
+      (applyStep c.s (.txCommitActive sn.key T (lset sn.labels remoteLabel remoteVal))).mounts.Nodup ∧
+      Dir.id t.id ∈ (applyStep c.s (.txCommitActive sn.key T (lset sn.labels remoteLabel remoteVal))).dirs := by
+  have hci := cinvar_reachable h
+  have htok := hci.tok i
+  rw [hpc] at htok
+  obtain ⟨⟨a, ha, hai, hak⟩, hm⟩ := htok
+  have hstep : StepOk c.s (.txCommitActive sn.key T (lset sn.labels remoteLabel remoteVal)) := hok
+  obtain ⟨_, _, sn0, hf0, _⟩ := hok
+  have hsn0 := findKey_some hf0
+  have ha0 : a = sn0 := hci.inv.keyInj ha hsn0.1 (by rw [hak, hsn0.2])
+  have hinv' := inv_step hci.inv hstep
+  have had' : AllDirs (applyStep c.s (.txCommitActive sn.key T (lset sn.labels remoteLabel remoteVal))) :=
+    allDirs_step hci.allDirs (st := .txCommitActive sn.key T (lset sn.labels remoteLabel remoteVal)) trivial
+  have hmem : ({ sn0 with key := T, kind := .committed, labels := lset sn.labels remoteLabel remoteVal } : Snap) ∈
+      (applyStep c.s (.txCommitActive sn.key T (lset sn.labels remoteLabel remoteVal))).snaps := by
+    simp only [applyStep, commitActive, hf0]
+    exact mem_insertSnap.mpr (Or.inl rfl)
+  refine ⟨_, hinv'.findKey_of_mem hmem, rfl, by rw [← ha0]; exact hai, rfl, isRemote_lset _ _, ?_, hinv'.mountNodup, ?_⟩
+  · show sn0.id ∈ c.s.mounts
+    rw [← ha0, hai]; exact hm
+  · exact had' _ hmem
+
+/-! #### the seeded change C08-A as a model-level counterexample
+
+With `cleanupReadTx` (Cleanup scans the directories under a READ transaction, i.e. without the writer
+lock) the invariant FAILS: Prepare("k") renames its directory, the concurrent Cleanup scans (directory 1
+on disk, no id 1 in the metadata), unmounts and deletes it, Prepare commits. -/
+
+def raceOp : Op := .prepare "k" "" []
+def raceSnap : Snap := ⟨"k", 1, .active, "", []⟩
+def race0 : CState := cinit {}
+def race1 : CState := { race0 with th := setPc race0.th 0 (.idle raceOp), orc := fun j => if j = 0 then okOracle else race0.orc j }
+def race2 : CState := { race1 with th := setPc race1.th 1 (.idle (.cleanup [])), orc := fun j => if j = 1 then okOracle else race1.orc j }
+def race3 : CState := { (race2.run 0 (.mkTemp race2.tmp) (.crRename none race2.tmp raceSnap)) with tmp := race2.tmp + 1 }
+def race4 : CState := race3.run 0 (.rename 0 1) (.crCommit none raceSnap)
+def race5 : CState := race4.goto 1 (.clean [Dir.id 1] false)
+def race6 : CState := race5.run 1 (.fsUnmount (.id 1) true) (.clean [Dir.id 1] true)
+def race7 : CState := race6.run 1 (.rmdir (.id 1)) (.clean [] false)
+def race8 : CState := race7.run 0 (.txCreate raceSnap) .done
+
+theorem race_reachable : CReach { cleanupReadTx := true } {} race8 := by
+  have s1 : CStep { cleanupReadTx := true } race0 race1 :=
+    CStep.spawn race0 0 raceOp okOracle rfl (by intro j; constructor <;> intro k _ <;> simp [race0, cinit, PC.consumes, PC.ownKey])
+  have s2 : CStep { cleanupReadTx := true } race1 race2 :=
+    CStep.spawn race1 1 (.cleanup []) okOracle rfl (by intro j; constructor <;> intro k hk <;> simp [PC.consumes, PC.ownKey] at hk)
+  have s3 : CStep { cleanupReadTx := true } race2 race3 :=
+    CStep.createBegin race2 0 .active "k" "" [] rfl (by decide)
+      (by
+        intro j
+        simp only [race2, race1, race0, cinit, setPc]
+        split
+        · rfl
+        · split <;> rfl)
+      ⟨⟨[], rfl, rfl⟩, by decide⟩
+  have s4 : CStep { cleanupReadTx := true } race3 race4 := CStep.rename race3 0 none 0 raceSnap rfl
+  have s5 : CStep { cleanupReadTx := true } race4 race5 :=
+    CStep.cleanupScan race4 1 [] rfl (by intro hf; cases hf)
+  have s6 : CStep { cleanupReadTx := true } race5 race6 := CStep.cleanUnmount race5 1 (.id 1) [] rfl
+  have s7 : CStep { cleanupReadTx := true } race6 race7 := CStep.cleanRmdir race6 1 (.id 1) [] rfl
+  have s8 : CStep { cleanupReadTx := true } race7 race8 := CStep.createCommit race7 0 none raceSnap rfl
+  exact .step (.step (.step (.step (.step (.step (.step (.step .init s1) s2) s3) s4) s5) s6) s7) s8
+
+/-- ... and in the state reached the live snapshot "k" has no directory: the invariant (and
+`live_snapshot_dirs_never_removed_concurrent`) is false for the `cleanupReadTx` variant. -/
+theorem cleanupReadTx_breaks_invariant :
+    ∃ c, CReach { cleanupReadTx := true } {} c ∧ (∃ a ∈ c.s.snaps, Dir.id a.id ∉ c.s.dirs) ∧ ¬ CInvar c := by
+  have hbad : ∃ a ∈ race8.s.snaps, Dir.id a.id ∉ race8.s.dirs := ⟨raceSnap, by decide, by decide⟩
+  refine ⟨race8, race_reachable, hbad, ?_⟩
+  intro hinv
+  obtain ⟨a, ha, hd⟩ := hbad
+  exact hd (hinv.allDirs a ha)
 
 /-! ### non-vacuity: the hypotheses are met by concrete non-trivial histories -/
 
